@@ -306,8 +306,10 @@ def queries(tier):
                             bound='pre-state: %d one-byte keys; argument key: any valid-UTF-8 string of 3 bytes' % nk))
     # larger collections (binary search over 5-7 entries): concrete stored keys, free argument key
     for op in ('insert', 'get', 'remove', 'entry', 'entry_or_insert', 'contains_key', 'index', 'occ_remove', 'get_mut_set', 'retain_key_ne'):
-        for keys in (['b', 'd', 'f', 'h', 'j'], ['a1', 'a_', 'aa', 'b-', 'b.', 'c', 'zz']):
-            for kl in (1, 2):
+        for keys in (['b', 'd', 'f', 'h', 'j'], ['a1', 'a_', 'aa', 'b-', 'b.', 'c', 'zz'], list('bdfhjlnprt'), list('abcdefghijklmnopq')):
+            if len(keys) > 7 and op not in ('insert', 'get', 'remove', 'entry', 'index'):
+                continue
+            for kl in ((1, 2) if len(keys) <= 7 else (1,)):
                 qs.append(Query('step %s state=%s key=⟦%d⟧' % (op, ','.join(keys), kl), h_step_fixed, {'keys': keys, 'op': op, 'keylen': kl, 'vallen': 1 if op in WITHVAL else 0},
                                 bound='pre-state: the keys %s with one-byte free values; argument key: any valid-UTF-8 string of %d bytes' % (keys, kl)))
     for n in range(0, 4 if th else 3):
